@@ -269,9 +269,12 @@ class ByteInterval(Node):
             size=proto_interval.size,
             contents=proto_interval.contents,
             uuid=uuid,
-            blocks=(decode_block(b) for b in proto_interval.blocks),
         )
+        # Register the interval before decoding its blocks, as sections and
+        # modules do, so that a block reusing the interval's own UUID is
+        # rejected instead of silently shadowing it in the UUID table.
         result._add_to_uuid_cache(ir._local_uuid_cache)
+        result.blocks.update(decode_block(b) for b in proto_interval.blocks)
         # We store the interval and IR here so we can use it later, when
         # _decode_symbolic_expressions is called.
         result._proto_interval = proto_interval
